@@ -22,6 +22,7 @@ static uint8_t  O1001; static uint8_t O2100=0; static uint8_t O2101=0; static ui
 static CO_HBCONS HB1={0,0,0,-1,100,5,0}; static CO_HBCONS HB2={0,0,0,-1,0,0,0}; static uint8_t O1016_0=2;
 static uint32_t TPDO_ID; static uint32_t RPDO_ID=0x205; static uint8_t RTYPE=1; static uint8_t TTYPE=254; static uint8_t N1=1;
 static uint16_t EVT=0, INH=0;
+static uint8_t DOMBUF[40]; static CO_OBJ_DOM DOM={0,20,DOMBUF};
 #define MAXD 64
 static CO_OBJ OD[MAXD];
 static int nod;
@@ -59,6 +60,7 @@ static void mkdict(void){ nod=0; memset(OD,0,sizeof OD);
  add(CO_KEY(0x1A00,1,CO_OBJ_D___RW),CO_TPDO_MAP,CO_LINK(0x2101,0,8));
  add(CO_KEY(0x2100,0,CO_OBJ____PRW),CO_TUNSIGNED8,(CO_DATA)&O2100);
  add(CO_KEY(0x2101,0,CO_OBJ____PRW),CO_TUNSIGNED8,(CO_DATA)&O2101);
+ add(CO_KEY(0x2200,0,CO_OBJ_____RW),CO_TDOMAIN,(CO_DATA)&DOM);
 }
 static void init(int tmrn){ CO_NODE_SPEC s; memset(&s,0,sizeof s); mkdict();
  s.NodeId=1;s.Baudrate=250000;s.Dict=OD;s.DictLen=MAXD;s.EmcyCode=ET;s.TmrMem=TM;s.TmrNum=tmrn;s.TmrFreq=1000;s.Drv=&DRV;s.SdoBuf=SBUF;
@@ -86,4 +88,6 @@ int main(int argc,char**argv){ int sc=atoi(argv[1]); setvbuf(stdout,0,_IONBF,0);
  if(sc==8){ init(16); static uint8_t N8=8; /* 8 one-byte dummies in RPDO0 */
    static CO_OBJ OD2[MAXD]; int k=0; for(int i=0;i<nod;i++){ if(CO_GET_IDX(OD[i].Key)==0x1600) continue; if(CO_GET_IDX(OD[i].Key)==0x1800 && CO_GET_SUB(OD[i].Key)==0 && k>0 && CO_GET_IDX(OD2[k-1].Key)!=0x1600){ OD2[k].Key=CO_KEY(0x1600,0,CO_OBJ_____RW);OD2[k].Type=CO_TPDO_NUM;OD2[k].Data=(CO_DATA)&N8;k++; for(int j=1;j<=8;j++){OD2[k].Key=CO_KEY(0x1600,j,CO_OBJ_D___RW);OD2[k].Type=CO_TPDO_MAP;OD2[k].Data=CO_LINK(0x0005,0,8);k++;} } OD2[k++]=OD[i]; }
    CO_NODE_SPEC s; memset(&s,0,sizeof s); s.NodeId=1;s.Baudrate=250000;s.Dict=OD2;s.DictLen=MAXD;s.EmcyCode=ET;s.TmrMem=TM;s.TmrNum=16;s.TmrFreq=1000;s.Drv=&DRV;s.SdoBuf=SBUF; CONodeInit(&N,&s); printf("init err=%d\n",CONodeGetErr(&N)); CONodeStart(&N); nmt(1); printf("RESULT: RPDO0 ObjNum=%u\n",N.RPdo[0].ObjNum);} 
+ if(sc==9){ init(16); uint8_t d[8]={0x22,0x00,0x22,0x00,1,2,3,4}; txn=0; rx(0x601,8,d); pump(); printf("RESULT: responses=%d first byte0=%02x (80=abort expected) server Obj=%p\n",txn,txlog[0].Data[0],(void*)N.Sdo[0].Obj);} 
+ if(sc==10){ init(16); for(int i=0;i<20;i++) DOMBUF[i]=0xA0+i; uint8_t a[8]={0xA0,0x00,0x22,0x00,2,0,0,0}; rx(0x601,8,a); pump(); uint8_t st[8]={0xA3,0,0,0,0,0,0,0}; rx(0x601,8,st); pump(); uint8_t ab[8]={0x80,0x00,0x22,0x00,0,0,0,0x08}; rx(0x601,8,ab); pump(); printf("-- after client abort: Obj=%p State=%d; now A3h with no initiate\n",(void*)N.Sdo[0].Obj,N.Sdo[0].Blk.State); memset(DOMBUF,0,sizeof DOMBUF); txn=0; rx(0x601,8,st); pump(); printf("RESULT: frames emitted for A3h without initiate: %d (byte1 of first = %02x)\n",txn,txn?txlog[0].Data[1]:0);} 
  return 0; }
